@@ -26,17 +26,4 @@ def run(ctx, res):
     r2.rule_per_element(S, res, {"pre", "online"}, cs)
     r6.rule_generator_clone(S, res)
     r2.rule_check_before_send(S, res, {"pre", "online"}, cs)
-    mine = [c for c in cs if "fashare ver" in c.labels and {"CMP", "DELTA"} <= c.ing]
-    opens = [s_ for s_ in S.inv.direct_sites() if "fashare di_bi" in (s_.label or []) and s_.body.owner.endswith("faand::fashare")]
-    if not mine:
-        res.bad("R2.1", "fashare ver|claimed-bit-mac", "aShare: the XOR of the peers' claimed check bits selects whether d0 or d0^Delta is opened, but the claims' MACs under the own key are never verified: a peer that misreports its bit obtains d0^Delta and, with the MAC it holds, Delta", "src/mpc/faand.rs (fashare, step 3c)")
-    elif not opens:
-        res.bad("R2.1", "fashare ver|claimed-bit-mac", "cannot locate the `fashare di_bi` opening in fashare")
-    else:
-        # the check sits in the loop over the RHO check positions: "before" = the opening is reached from
-        # the check and the check is never reached from the opening
-        before = [c for c in mine if all(c.bk == o.bk and o.block in c.body.reachable_from(c.block) and c.block not in c.body.reachable_from(o.block) for o in opens)]
-        if before:
-            res.ok("R2.1", "fashare ver|claimed-bit-mac", before[0].where(), "the claimed bits are MAC-checked with the own key and Delta, and that check lies before the opening of d0/d1 (`fashare di_bi`)")
-        else:
-            res.bad("R2.1", "fashare ver|claimed-bit-mac", "the MAC check of the claimed bits does not precede the opening of d0/d1 (`fashare di_bi`): the value selected by a misreported bit is sent before the claim is verified", mine[0].where())
+    r2.rule_claimed_bit(S, res, cs)
